@@ -90,19 +90,15 @@ def load_known():
         return json.load(fh)["findings"]
 
 
-def run_check(prop, tier="quick", replay=None):
-    t0 = time.time()
-    seed = int(os.environ.get("VERIF_SEED", "0") or 0)
-    mod = importlib.import_module(prop)
+def _evaluate(mod, prop, tier, config, repo=None):
+    """Runs the property's rules once (one build configuration, one tree) and returns the report."""
     rep = Report(prop)
-    ctx = Ctx(tier, config=os.environ.get("VERIF_CONFIG", "default"))
-    fatal = None
+    ctx = Ctx(tier, config=config, repo=repo)
     try:
         mod.run(ctx, rep)
     except AnchorLost as e:
         rep.lost("anchor", str(e))
     except RuntimeError as e:
-        fatal = str(e)
         rep.ob("extract", "facts", False, f"fact extraction failed: {e}")
     except Exception as e:  # fail closed: a rule that cannot be evaluated on this tree must not look like a pass
         import traceback
@@ -110,13 +106,102 @@ def run_check(prop, tier="quick", replay=None):
         where = f"{os.path.basename(tb[-1].filename)}:{tb[-1].lineno}" if tb else "?"
         sys.stderr.write(traceback.format_exc())
         rep.ob("evaluate", "rule-evaluation", False, f"a rule could not be evaluated on this tree ({type(e).__name__}: {e} at {where}): the shape it is anchored on changed; the clauses it decides are not established")
+    return rep, ctx
+
+
+def seeds_for(prop):
+    """Seeded breaking changes kept under /verif/seeded whose meta.json names this property (or lists it under also_checked_by)."""
+    base = os.path.join(VERIF, "seeded")
+    out = []
+    if not os.path.isdir(base):
+        return out
+    for d in sorted(os.listdir(base)):
+        mp = os.path.join(base, d, "meta.json")
+        pp = os.path.join(base, d, "patch.diff")
+        if not (os.path.exists(mp) and os.path.exists(pp)):
+            continue
+        try:
+            with open(mp) as fh:
+                m = json.load(fh)
+        except Exception:
+            continue
+        if m.get("property") == prop or prop in (m.get("also_checked_by") or []):
+            out.append((d, pp, m))
+    return out
+
+
+def sensitivity(mod, prop, known_keys):
+    """Thorough tier: every seeded breaking change for this property is applied to a scratch copy of the *current* tree (outside
+    /repo and /verif, removed afterwards) and the rules must report a violation there. Analysis of a variant source tree; wild is
+    never run. Returns a list of records for the evidence file."""
+    import shutil
+    import subprocess
+    import tempfile
+    out = []
+    for sid, patch, meta in seeds_for(prop):
+        tmp = tempfile.mkdtemp(prefix=f"verif_sens_{prop}_", dir="/tmp")
+        rec = {"seed": sid, "status": None}
+        try:
+            subprocess.run(["rsync", "-a", "--exclude", "target", "--exclude", ".git", factsmod.REPO + "/", tmp + "/"], check=True)
+            r = subprocess.run(["git", "apply", "--whitespace=nowarn", patch], cwd=tmp, stdout=subprocess.PIPE, stderr=subprocess.STDOUT, text=True)
+            if r.returncode != 0:
+                r2 = subprocess.run(["patch", "-p1", "--forward", "-i", patch], cwd=tmp, stdout=subprocess.PIPE, stderr=subprocess.STDOUT, text=True)
+                if r2.returncode != 0:
+                    rec["status"] = "stale"
+                    rec["detail"] = "the seeded patch no longer applies to the current tree"
+                    out.append(rec)
+                    continue
+            rep, _ctx = _evaluate(mod, prop, "quick", "default", repo=tmp)
+            viol = [v for v in rep.violations if v["key"] not in known_keys]
+            if any(v["rule"] == "extract" for v in viol):
+                rec["status"] = "stale"
+                rec["detail"] = "the patched tree does not compile any more"
+            else:
+                rec["status"] = "fired" if viol else "missed"
+                rec["violations"] = sorted({v["key"] for v in viol})[:6]
+        finally:
+            shutil.rmtree(tmp, ignore_errors=True)
+        out.append(rec)
+    return out
+
+
+def run_check(prop, tier="quick", replay=None):
+    t0 = time.time()
+    seed = int(os.environ.get("VERIF_SEED", "0") or 0)
+    mod = importlib.import_module(prop)
+    base_config = os.environ.get("VERIF_CONFIG", "default")
+    rep, ctx = _evaluate(mod, prop, tier, base_config)
+    configs_done = [base_config]
+    sens = []
+    if tier == "thorough":
+        # (i) every build configuration the repository defines
+        for cfg in getattr(mod, "THOROUGH_CONFIGS", ("plugins", "nofork")):
+            if cfg == base_config:
+                continue
+            rep_c, _c = _evaluate(mod, prop, tier, cfg)
+            configs_done.append(cfg)
+            base_bad = {v["key"] for v in rep.violations}
+            for o in rep_c.obligations:
+                o2 = dict(o)
+                o2["config"] = cfg
+                if not o["ok"] and o["key"] in base_bad:
+                    continue   # same violation as in the default configuration
+                o2["key"] = f"[{cfg}]" + o["key"]
+                rep.obligations.append(o2)
+                if not o["ok"]:
+                    rep.violations.append(o2)
+            for a in rep_c.assumptions:
+                rep.assume(a)
+            rep.notes += [f"[{cfg}] {n}" for n in rep_c.notes]
 
     known = [k for k in load_known() if k["property"] == prop]
     known_keys = {k["key"]: k for k in known if k.get("status", "known") == "known"}
     new_violations = []
     seen_known = []
+    def _base_key(k):
+        return k.split("]", 1)[1] if k.startswith("[") and "]" in k else k
     for v in rep.violations:
-        if v["key"] in known_keys:
+        if _base_key(v["key"]) in known_keys:
             seen_known.append(v)
         else:
             new_violations.append(v)
@@ -127,13 +212,19 @@ def run_check(prop, tier="quick", replay=None):
     new_violations = list(uniq.values())
     uk = {}
     for v in seen_known:
-        uk.setdefault(v["key"], v)
+        uk.setdefault(_base_key(v["key"]), v)
     seen_known = list(uk.values())
 
     for v in seen_known:
-        k = known_keys[v["key"]]
+        k = known_keys[_base_key(v["key"])]
         print(f"KNOWN-FINDING: property={prop} {k['what']} [{v['key']}]")
 
+    if tier == "thorough":
+        sens = sensitivity(mod, prop, set(known_keys))
+        for r in sens:
+            print(f"sensitivity: seed {r['seed']}: {r['status']}" + (f" ({'; '.join(r.get('violations', [])[:2])})" if r.get("violations") else ""))
+            if r["status"] == "missed":
+                print(f"WARNING: the rules of {prop} do not report the seeded change {r['seed']} (checker weakness, not a violation of the tree)")
     distinct = len({o["key"] for o in rep.obligations})
     discharged = sum(1 for o in rep.obligations if o["ok"])
     samples = _samples(rep.obligations, seed)
@@ -155,6 +246,8 @@ def run_check(prop, tier="quick", replay=None):
             "known_findings_matched": [v["key"] for v in seen_known],
             "notes": rep.notes,
             "config": ctx.config,
+            "configurations": configs_done,
+            "sensitivity": sens,
             "exhaustive": True,
         },
         "assumptions": rep.assumptions + [
